@@ -19,12 +19,16 @@ Theorem C14_reauth_installed :
 Proof. exact reauth_row_installed. Qed.
 Print Assumptions C14_reauth_installed.
 
-(* every apply loop folds right-to-left from the hook of its own kind and stores to it: what is
-   installed is compose [w_1; ...; w_n] base, the wrapper of the first plugin outermost *)
+(* every apply loop folds right-to-left over the field's own slice (the loop is bounded by the
+   length of, and indexes, the slice the field's wrappers were collected into), from the hook of
+   its own kind, and stores to it: what is installed is compose [w_1; ...; w_n] base, the wrapper
+   of the first plugin outermost *)
 Theorem C14_order :
   forall row, In row hook_rows -> hr_applied row = true ->
     hr_base row = hr_kind row /\ hr_store row = hr_kind row /\
-    forall (H : Type) (ws : list (H -> H)) (base : H), installed row ws base = compose ws base.
+    hr_bound row = hr_slice row /\ hr_indexed row = hr_slice row /\
+    forall (H : Type) (sl : string -> list (H -> H)) (base : H),
+      installed row sl base = compose (sl (hr_slice row)) base.
 Proof. exact order_installed. Qed.
 Print Assumptions C14_order.
 
@@ -46,7 +50,16 @@ Theorem C14_table_covers : table_covers = true.
 Proof. exact table_covers_ok. Qed.
 Print Assumptions C14_table_covers.
 
+(* no two HookWrapper fields are collected into the same slice *)
+Theorem C14_slices_distinct : nodup_strs (map hr_slice hook_rows) = true.
+Proof. exact slices_distinct. Qed.
+Print Assumptions C14_slices_distinct.
+
 (* non-vacuity *)
+Example C14_wrong_bound_differs :
+  loop_desc [tag 1; tag 2; tag 3] 1 [] = [1] /\ compose [tag 1; tag 2; tag 3] [] = [1; 2; 3].
+Proof. exact wrong_bound_differs. Qed.
+
 Example C14_some_row_applied : exists row, In row hook_rows /\ hr_applied row = true.
 Proof. exact some_row_applied. Qed.
 
